@@ -48,6 +48,7 @@ type c09Worker struct {
 
 var c09W *c09Worker
 var c09Slow bool
+var c09Zero bool
 
 func c09Key() []byte { return []byte("0123456789abcdef") }
 
@@ -66,6 +67,9 @@ func c09NewWorker() (*c09Worker, error) {
 		c.EnableNameConflictResolution = true
 		c.DisableCoordinates = false
 		c.Merge = c09Merge{}
+		// both event coalescers sit between the handlers and the application
+		c.CoalescePeriod, c.QuiescentPeriod = 2*time.Millisecond, time.Millisecond
+		c.UserCoalescePeriod, c.UserQuiescentPeriod = 2*time.Millisecond, time.Millisecond
 		c.EventBuffer = 4
 		c.QueryBuffer = 4
 		c.BroadcastTimeout = time.Millisecond
@@ -75,6 +79,9 @@ func c09NewWorker() (*c09Worker, error) {
 		c.QueryTimeoutMult = 2 // queries stay open for 200 ms
 		if c09Slow {
 			c.QueryTimeoutMult = 100
+		}
+		if c09Zero {
+			c.EventBuffer, c.QueryBuffer = 0, 0
 		}
 		c.MemberlistConfig.BindPort = 0 // any free port: workers of parallel runs share the loopback addresses
 		w.evCh = make(chan serf.Event, 1<<14)
@@ -188,6 +195,24 @@ func (w *c09Worker) inject(f []string) string {
 			}
 			c.Conflict.NotifyConflict(nd, c09Node(string(a[0]), []byte{10, 9, 9, 9}, nil, 9, 0))
 		}
+	case "wrapevent", "wrapquery": // a message at Lamport time 2^64-1 (Witness wraps the clock to 0)
+		msg := encodeWire(msgUserEventType, &wireUserEvent{LTime: ^uint64(0), Name: "wrap"})
+		if f[1] == "wrapquery" {
+			msg = encodeWire(msgQueryType, &wireQuery{LTime: ^uint64(0), ID: 1, Name: "wrap"})
+		}
+		res := "ok"
+		func() {
+			defer func() {
+				if r := recover(); r != nil {
+					res = "PANIC " + fmt.Sprint(r)
+					if strings.Contains(fmt.Sprint(r), "integer divide by zero") {
+						res = "divide-by-zero"
+					}
+				}
+			}()
+			c.Delegate.NotifyMsg(msg)
+		}()
+		return res
 	case "qlocal": // the application issues a query: <name> <payload> <ack 0|1>; replies then come from the network
 		if len(f) != 5 {
 			return "bad-op"
@@ -298,7 +323,7 @@ func (w *c09Worker) alive() string {
 			res <- "state-" + s.State().String()
 			return
 		}
-		if w.probe(20 * time.Second) {
+		if c09Zero || w.probe(20*time.Second) { // with zero-size buffers no user event is ever delivered (every one is "too old")
 			res <- "serving"
 		} else {
 			res <- "probe-event-not-delivered"
@@ -345,6 +370,12 @@ func c09WorkerExec(ops []string) []string {
 			outs = append(outs, "ok")
 			continue
 		}
+		if o == "inj zerobuffers" {
+			// before the node exists: EventBuffer = QueryBuffer = 0 (a configuration Create accepts)
+			c09Zero = c09W == nil
+			outs = append(outs, "ok")
+			continue
+		}
 		if c09W == nil {
 			w, err := c09NewWorker()
 			for try := 0; err != nil && try < 20; try++ {
@@ -372,7 +403,9 @@ func c09WorkerExec(ops []string) []string {
 			if len(f) == 2 {
 				ms, _ = strconv.Atoi(f[1])
 			}
-			c09W.probe(20 * time.Second)
+			if !c09Zero {
+				c09W.probe(20 * time.Second)
+			}
 			dl := time.Now().Add(time.Duration(ms) * time.Millisecond)
 			for runtime.NumGoroutine() > c09W.baseG && time.Now().Before(dl) {
 				time.Sleep(300 * time.Microsecond)
@@ -515,13 +548,30 @@ func c09Run(ops []string, settleFrom int) (answers []string, confirmed int, died
 
 func c09Exec(ops []string) []string {
 	outs := make([]string, len(ops))
-	i := 0
+	i, crashes := 0, 0
 	for i < len(ops) {
+		if crashes >= 5 {
+			// enough failing inputs identified in this case; do not spend minutes on the rest
+			for k := i; k < len(ops); k++ {
+				outs[k] = "skipped-node-does-not-start"
+			}
+			break
+		}
 		seg := ops[i:]
 		ans, _, died, site := c09Run(seg, len(seg))
 		if !died {
 			copy(outs[i:], ans)
 			break
+		}
+		if len(ans) == 0 {
+			// nothing was answered: does the node die on its own, before any input?
+			if _, _, diedEmpty, siteEmpty := c09Run(nil, 0); diedEmpty {
+				outs[i] = "CRASH " + siteEmpty + " (at start-up, before any input)"
+				for k := i + 1; k < len(ops); k++ {
+					outs[k] = "skipped-node-does-not-start"
+				}
+				break
+			}
 		}
 		// crash: replay the segment up to the input that was in flight, settling after each of the last
 		// 400 inputs, to find the exact one
@@ -548,6 +598,7 @@ func c09Exec(ops []string) []string {
 		}
 		outs[i+culprit] = "CRASH " + site
 		i += culprit + 1
+		crashes++
 	}
 	for k := range outs {
 		if outs[k] == "" {
@@ -576,6 +627,6 @@ func init() {
 		Gen:      c09Gen,
 		Exec:     c09Exec,
 		Isolate:  true,
-		Parallel: 8,
+		Parallel: 12,
 	})
 }
